@@ -18,9 +18,10 @@
 (*          declaration text: identifier as written, rename attribute or    *)
 (*          none -- the NAME is computed here, Abs!NameOf)                   *)
 (*  call    fn, a, s, res, sig        one call of a pure item               *)
-(*  it_new  src, a, b, res, sig       iter() / range(a,b) / names()         *)
-(*  it_op   op, n, res, sig           next next_back nth nth_back len size_hint *)
-(*  it_end  op, n, res, sig           consuming operation                   *)
+(*  it_new  slot, src, a, b, res, sig iter() / range(a,b) / names() into a slot *)
+(*  it_op   slot, op, n, res, sig     next next_back nth nth_back len size_hint *)
+(*                                    find rfind take_count rev_take_count take_last *)
+(*  it_end  slot, op, n, res, sig     consuming operation                   *)
 (*  compile_fail  case, grp, gprop, where, bare_ok, msg                     *)
 (*                                                                         *)
 (* Group (metamorphic) properties: consecutive cases with the same `grp`   *)
@@ -43,13 +44,16 @@ VARIABLES l,      \* index of the next event
           D,      \* the abstract enum of the current case: disc -> name
           base,   \* Sorted(D)
           meta,   \* [case, grp, gprop] of the current case
-          cur,    \* current iterator: [alive, src, w]
+          its,    \* the iterator slots of the current case: slot -> [alive, src, w]  (several iterators may be
+                  \* alive at once and are operated alternately; operations on one never affect another)
           gst     \* current group: [start |-> line of its first event, ok |-> some member compiled]
-vars == <<l, D, base, meta, cur, gst>>
+vars == <<l, D, base, meta, its, gst>>
 
+Slots == 0..3
 NoIt == [alive |-> FALSE, src |-> "none", w |-> WEmpty]
+NoIts == [k \in Slots |-> NoIt]
 
-Init == /\ l = 1 /\ D = <<>> /\ base = <<>> /\ cur = NoIt /\ gst = [start |-> 1, ok |-> FALSE]
+Init == /\ l = 1 /\ D = <<>> /\ base = <<>> /\ its = NoIts /\ gst = [start |-> 1, ok |-> FALSE]
         /\ meta = [case |-> -1, grp |-> "", gprop |-> ""]
 
 \* ---------------------------------------------------------------------------
@@ -106,11 +110,14 @@ NewWindow(e) ==
 
 \* <<expected observation, next window>> of a non-consuming operation
 OpStep(e) ==
-  LET w == cur.w IN
+  LET cur == its[e.slot] w == cur.w IN
   CASE e.op = "next"      -> LET r == WNext(base, w)     IN <<Obs(cur.src, r[1]), r[2]>>
     [] e.op = "next_back" -> LET r == WNextBack(base, w) IN <<Obs(cur.src, r[1]), r[2]>>
-    [] e.op = "nth"       -> LET r == WNth(base, w, e.n) IN <<Obs(cur.src, r[1]), r[2]>>
-    [] e.op = "nth_back"  -> LET r == WNthBack(base, w, e.n) IN <<Obs(cur.src, r[1]), r[2]>>
+    [] e.op \in {"nth", "find"}       -> LET r == WNth(base, w, e.n) IN <<Obs(cur.src, r[1]), r[2]>>
+    [] e.op \in {"nth_back", "rfind"} -> LET r == WNthBack(base, w, e.n) IN <<Obs(cur.src, r[1]), r[2]>>
+    [] e.op = "take_count"     -> LET r == WTakeCount(w, e.n)    IN <<Len_(r[1]), r[2]>>
+    [] e.op = "rev_take_count" -> LET r == WRevTakeCount(w, e.n) IN <<Len_(r[1]), r[2]>>
+    [] e.op = "take_last"      -> LET r == WTakeLast(base, w, e.n) IN <<Obs(cur.src, r[1]), r[2]>>
     [] e.op = "len"       -> <<Len_(WLen(w)), w>>
     [] e.op = "size_hint" -> <<Hint(WLen(w), WLen(w)), w>>
 
@@ -132,7 +139,7 @@ ItemMax(src, rest) ==
 
 \* expected observation of a consuming operation
 EndObs(e) ==
-  LET rest == Win(base, cur.w.lo, cur.w.hi) IN
+  LET cur == its[e.slot] rest == Win(base, cur.w.lo, cur.w.hi) IN
   CASE e.op \in {"fold", "collect", "for_each"} -> ObsSeq(cur.src, ConsCollect(rest))
     [] e.op \in {"rfold", "rev_collect"}        -> ObsSeq(cur.src, ConsRevCollect(rest))
     [] e.op = "last"     -> Obs(cur.src, ConsLast(rest))
@@ -174,7 +181,7 @@ Step ==
   /\ LET e == Rec[l] IN
      CASE e.ev = "decl" ->
             /\ Assert(DeclOK(e), <<"malformed decl event at line", l>>)
-            /\ D' = DeclOf(e) /\ base' = e.discs /\ cur' = NoIt
+            /\ D' = DeclOf(e) /\ base' = e.discs /\ its' = NoIts
             /\ meta' = [case |-> e.case, grp |-> e.grp, gprop |-> e.gprop]
             /\ gst' = IF e.grp = meta.grp /\ e.grp # "" THEN [gst EXCEPT !.ok = TRUE] ELSE [start |-> l, ok |-> TRUE]
        [] e.ev = "compile_fail" ->
@@ -190,28 +197,31 @@ Step ==
                          \cup (IF e.gprop \in {"C15", "C16"} /\ same /\ gst.ok THEN {e.gprop} ELSE {}), e)
                /\ gst' = IF same THEN gst ELSE [start |-> l, ok |-> FALSE]
             /\ meta' = [case |-> e.case, grp |-> e.grp, gprop |-> e.gprop]
-            /\ cur' = NoIt /\ UNCHANGED <<D, base>>
+            /\ its' = NoIts /\ UNCHANGED <<D, base>>
        [] e.ev = "call" ->
             /\ Assert(ArgIsVariant(e) => e.a \in DOMAIN D, <<"argument is not a variant, line", l>>)
             /\ Judge(e, CallOK(e), CallProp(e.fn))
-            /\ UNCHANGED <<D, base, meta, cur, gst>>
+            /\ UNCHANGED <<D, base, meta, its, gst>>
        [] e.ev = "it_new" ->
             /\ Assert(e.src = "range" => e.a \in DOMAIN D /\ e.b \in DOMAIN D, <<"range argument is not a variant, line", l>>)
+            /\ Assert(e.slot \in Slots, <<"slot out of range, line", l>>)
             /\ Judge(e, e.res.k = "ok", SrcProp(e.src))
-            /\ cur' = [alive |-> e.res.k = "ok", src |-> e.src, w |-> NewWindow(e)]
+            /\ its' = [its EXCEPT ![e.slot] = [alive |-> e.res.k = "ok", src |-> e.src, w |-> NewWindow(e)]]
             /\ UNCHANGED <<D, base, meta, gst>>
        [] e.ev = "it_op" ->
-            /\ IF cur.alive
+            /\ Assert(e.slot \in Slots /\ its[e.slot].src # "none", <<"operation on a slot without iterator, line", l>>)
+            /\ IF its[e.slot].alive
                THEN LET x == OpStep(e) ok == Same(e.res, x[1]) IN
-                    /\ Judge(e, ok, SrcProp(cur.src))
-                    /\ cur' = IF ok THEN [cur EXCEPT !.w = x[2]] ELSE [cur EXCEPT !.alive = FALSE]
-               ELSE /\ Judge(e, TRUE, SrcProp(cur.src))     \* desynchronised: only UB / metamorphic are judged
-                    /\ UNCHANGED cur
+                    /\ Judge(e, ok, SrcProp(its[e.slot].src))
+                    /\ its' = IF ok THEN [its EXCEPT ![e.slot].w = x[2]] ELSE [its EXCEPT ![e.slot].alive = FALSE]
+               ELSE /\ Judge(e, TRUE, SrcProp(its[e.slot].src))     \* desynchronised: only UB / metamorphic are judged
+                    /\ UNCHANGED its
             /\ UNCHANGED <<D, base, meta, gst>>
        [] e.ev = "it_end" ->
-            /\ IF cur.alive THEN Judge(e, Same(e.res, EndObs(e)), SrcProp(cur.src))
-                            ELSE Judge(e, TRUE, SrcProp(cur.src))
-            /\ cur' = [cur EXCEPT !.alive = FALSE]
+            /\ Assert(e.slot \in Slots /\ its[e.slot].src # "none", <<"operation on a slot without iterator, line", l>>)
+            /\ IF its[e.slot].alive THEN Judge(e, Same(e.res, EndObs(e)), SrcProp(its[e.slot].src))
+                                    ELSE Judge(e, TRUE, SrcProp(its[e.slot].src))
+            /\ its' = [its EXCEPT ![e.slot].alive = FALSE]
             /\ UNCHANGED <<D, base, meta, gst>>
 
 Spec == Init /\ [][Step]_vars
